@@ -19,20 +19,27 @@ EXTENDS ReaderInputs
 
 IsLenTok(t) == t \in NumToks \cup RealToks
 NwFrame(ph) == [ph |-> ph, lp |-> FALSE, internal |-> FALSE]
-NwIdle == [stk |-> <<>>, nest |-> 0, st |-> "idle", seen |-> {}, adv |-> 0, maxd |-> 0]
+NwIdle == [stk |-> <<>>, nest |-> 0, st |-> "idle", seen |-> {}, adv |-> 0, maxd |-> 0, afterlen |-> FALSE]
 \* _parse_tree_statement: the current token opens the statement
-NwBegin(t) == [stk |-> <<NwFrame("open")>>, nest |-> IF t = "(" THEN 1 ELSE 0, st |-> "run", seen |-> {}, adv |-> 0, maxd |-> 1]
+NwBegin(t) == [stk |-> <<NwFrame("open")>>, nest |-> IF t = "(" THEN 1 ELSE 0, st |-> "run", seen |-> {}, adv |-> 0, maxd |-> 1,
+               afterlen |-> FALSE]
 NwDepth(s) == Len(s.stk)
 NwTop(s) == s.stk[Len(s.stk)]
 NwSetTop(s, f) == [s EXCEPT !.stk[Len(s.stk)] = f]
 NwErr(s) == [s EXCEPT !.st = "err", !.adv = 0]
 NwMax(a, b) == IF a >= b THEN a ELSE b
 
-NwStep(s, t) ==
+\* tsr = the reader option terminating_semicolon_required.  With tsr = FALSE the end of the stream
+\* right after an edge length ends the statement (then the parentheses must be balanced, as at a
+\* ';'); after a label, or anywhere else, it is the error it always is.  Whatever the option, the
+\* end of the stream ends the machine: nothing is ever re-read.
+NwStep0(s, t, tsr) ==
     LET f == NwTop(s)
         d == Len(s.stk)
     IN
-    IF t = EOF \/ t = "'" THEN NwErr(s)             \* UnexpectedEndOfStreamError / UnterminatedQuoteError
+    IF t = EOF /\ ~tsr /\ f.ph = "tail" /\ s.afterlen
+      THEN (IF s.nest # 0 \/ d # 1 THEN NwErr(s) ELSE [s EXCEPT !.st = "ok", !.adv = 0])
+    ELSE IF t = EOF \/ t = "'" THEN NwErr(s)        \* UnexpectedEndOfStreamError / UnterminatedQuoteError
     ELSE CASE f.ph = "open" ->                      \* entry of _parse_tree_node_description
               IF t = "(" THEN [NwSetTop(s, [f EXCEPT !.ph = "kids", !.internal = TRUE]) EXCEPT !.adv = 1]
               ELSE [NwSetTop(s, [f EXCEPT !.ph = "tail"]) EXCEPT !.adv = 0]
@@ -56,6 +63,10 @@ NwStep(s, t) ==
                                      !.seen = IF f.internal THEN @ ELSE @ \cup {t}, !.adv = 1]
          [] f.ph = "len" ->
               IF IsLenTok(t) THEN [NwSetTop(s, [f EXCEPT !.ph = "tail"]) EXCEPT !.adv = 1] ELSE NwErr(s)
+
+NwStep(s, t, tsr) ==
+    LET n == NwStep0(s, t, tsr)
+    IN [n EXCEPT !.afterlen = (n.st = "run" /\ NwTop(s).ph = "len" /\ NwTop(n).ph = "tail" /\ Len(n.stk) = Len(s.stk))]
 
 \* number of opening parentheses of an input: bound of the recursion depth
 OpenCount(toks) == Cardinality({i \in 1..Len(toks) : toks[i] = "("})
